@@ -386,39 +386,59 @@ Proof.
   destruct (a =? v) eqn:E1, (b =? v) eqn:E2; simpl; lia.
 Qed.
 
+(* the facts the theorems below need about the tables, as a Prop: implied by the boolean wf_f (evaluated per case) and
+   PROVED for the tables of C01's model on every oriented manifold surface (BridgeFeat.v) *)
+Record wfF : Prop := mkWfF {
+  wfF_edge   : forall e, 0 <= e < nE -> fst (fedge_at m e) < snd (fedge_at m e);
+  wfF_border : forall e, 0 <= e < nE -> (In e (f_bedges m) <-> e_on_border m e = true);
+  wfF_brange : forall e, In e (f_bedges m) -> 0 <= e < nE;
+  wfF_hrange : forall l e, f_hard m = Some l -> In e l -> 0 <= e < nE;
+  wfF_v2e    : forall v e, 0 <= v < f_nV m -> 0 <= e < nE -> count_occ_o e (znth (f_v2e m) v []) = ends v e
+}.
+
+Lemma wf_f_wfF : wf_f m = true -> wfF.
+Proof.
+  intros Wf. constructor.
+  - intros e He. now apply wf_f_edge.
+  - intros e He. unfold wf_f in Wf. rewrite !andb_true_iff in Wf. destruct Wf as [[[[[[_ _] H] _] _] _] _].
+    rewrite forallb_forall in H. specialize (H e (proj2 (In_zrange _ _) He)). unfold wf_edge_f in H.
+    destruct (fedge_at m e) as [a b]. rewrite !andb_true_iff in H. destruct H as [_ H].
+    apply Bool.eqb_prop in H. now rewrite <- memz_In, H.
+  - intros e He. unfold wf_f in Wf. rewrite !andb_true_iff in Wf. destruct Wf as [[[[[[_ _] _] Hb] _] _] _].
+    rewrite forallb_forall in Hb. specialize (Hb e He). lia.
+  - intros l e El He. unfold wf_f in Wf. rewrite !andb_true_iff in Wf. destruct Wf as [[[[[[_ _] _] _] Hh] _] _].
+    rewrite forallb_forall in Hh. rewrite El in Hh. specialize (Hh e He). lia.
+  - intros v e Hv He. now apply wf_f_v2e.
+Qed.
+
 (* consistency of the two per-vertex containers: on well-formed tables the feature degree of a vertex is the
    number of its local feature-edge indices *)
 Theorem degree_is_local_count v :
-  wf_f m = true -> 0 <= v < f_nV m -> (forall e, In e (feature_edges m o) -> 0 <= e < nE) ->
+  wfF -> 0 <= v < f_nV m -> (forall e, In e (feature_edges m o) -> 0 <= e < nE) ->
   getd v (feature_degrees m o) = Z.of_nat (length (local_feat_edges_of m (feature_edges m o) v)).
 Proof.
   intros Wf Hv Hr. rewrite feature_degrees_spec. unfold local_feat_edges_of. rewrite local_of_length.
   rewrite <- (count_occ_o_sum _ _ feature_edges_NoDup).
   generalize (feature_edges m o) Hr. intros feat. induction feat as [|e t IH]; intros Hr'; simpl; [reflexivity|].
   rewrite IH by (intros x Hx; apply Hr'; now right).
-  rewrite wf_f_v2e; [reflexivity | exact Wf | exact Hv | apply Hr'; now left].
+  rewrite (wfF_v2e Wf); [reflexivity | exact Hv | apply Hr'; now left].
 Qed.
 
 (* on well-formed tables every flagged edge is an edge of the mesh *)
-Lemma feature_edges_range : wf_f m = true -> forall e, In e (feature_edges m o) -> 0 <= e < nE.
+Lemma feature_edges_range : wfF -> forall e, In e (feature_edges m o) -> 0 <= e < nE.
 Proof.
   intros Wf e He. apply feature_edges_spec in He.
-  unfold wf_f in Wf. rewrite !andb_true_iff in Wf. destruct Wf as [[[[[[_ _] _] Hb] Hh] _] _].
-  rewrite forallb_forall in Hb, Hh.
   destruct He as [He|[_ [[He _]|[l [d [E1 [E2 _]]]]]]].
-  - specialize (Hb e He). lia.
+  - now apply (wfF_brange Wf).
   - exact He.
-  - rewrite E1 in Hh. specialize (Hh e E2). lia.
+  - now apply (wfF_hrange Wf l).
 Qed.
 
 (* border / interior reading of the sources on well-formed tables *)
-Lemma wf_f_border e : wf_f m = true -> 0 <= e < nE -> (In e (f_bedges m) <-> dot_of e = None).
+Lemma wf_f_border e : wfF -> 0 <= e < nE -> (In e (f_bedges m) <-> dot_of e = None).
 Proof.
-  intros Wf He. unfold wf_f in Wf. rewrite !andb_true_iff in Wf. destruct Wf as [[[[[[_ _] H] _] _] _] _].
-  rewrite forallb_forall in H. specialize (H e (proj2 (In_zrange _ _) He)). unfold wf_edge_f in H.
-  destruct (fedge_at m e) as [a b]. rewrite !andb_true_iff in H. destruct H as [_ H].
-  apply Bool.eqb_prop in H. unfold e_on_border in H. unfold dot_of.
-  rewrite <- memz_In, H. destruct (e2f_at m e) as [[t1|] [t2|]]; split; congruence.
+  intros Wf He. rewrite (wfF_border Wf e He). unfold e_on_border, dot_of.
+  destruct (e2f_at m e) as [[t1|] [t2|]]; split; congruence.
 Qed.
 
 (* ------------------------------------------------------------------ corners *)
